@@ -214,3 +214,20 @@ func vpC14Lens() []int {
 	return []int{1, 4091, 4092, 4093, 8187, 8188, 8189}
 }
 
+
+
+// vpCheckOccupancy: the representation invariant linking the in-memory sector
+// map to the header - a sector is marked used exactly when it is a header
+// sector or belongs to the run of some header entry. It is what makes a
+// single-step check inductive: an allocator state that disagrees with the
+// header hands out live sectors (or leaks free ones) on a later write.
+func vpCheckOccupancy(r *Region, sectors int) {
+	for s := int32(0); s < int32(sectors); s++ {
+		want := s < 2
+		for _, co := range vpCoords {
+			sec, cnt := sectorLoc(r.offsets[co[1]][co[0]])
+			want = want || (sec != 0 && s >= sec && s < sec+cnt)
+		}
+		vp.Assert(r.sectors[s] == want, "in-memory sector map == occupancy described by the header")
+	}
+}
